@@ -140,6 +140,8 @@ def run_job(fs, env, job, entry="cli", fault=None, stage=True):
             else:
                 status, message = "exit", str(code)
         except BaseException as e:  # noqa
+            # files the aborted run still had open for writing (closed below, when its frames die)
+            trace.left_open = sorted(trace.open_write_unclosed)
             status = "exc:" + type(e).__name__
             message = "".join(traceback.format_exception_only(type(e), e)).strip()
             tb = traceback.extract_tb(e.__traceback__)
